@@ -299,8 +299,17 @@ func cmdCheck(args []string) int {
 			violations = append(violations, o)
 		}
 	}
+	// A function whose contract no longer attaches (a clause names a local, a call or a loop that the body no longer
+	// has) leaves every obligation of that function undischarged. On the unchanged tree every contract attaches, so
+	// this is reported as the failed obligation <func>#attach (no input: the verifier produced no query).
 	for _, d := range degraded {
-		fmt.Printf("DEGRADED property=%s function=%s reason=contract-does-not-attach (not a verdict)\n", pc.ID, d)
+		fn, why := d, "function not found in the package"
+		if i := strings.Index(d, ": "); i >= 0 {
+			fn, why = d[:i], d[i+2:]
+		}
+		fmt.Printf("DEGRADED property=%s function=%s reason=%s\n", pc.ID, fn, truncate(why, 300))
+		violations = append(violations, &Obligation{Name: fn + "#attach", Func: fn, Kind: "attach", Status: "undischarged",
+			Desc: "the contract of this function could not be attached to its current body: " + why, Output: why})
 	}
 	for _, o := range vacuous {
 		fmt.Printf("NOTE property=%s obligation=%s program point not shown reachable (vacuity guard)\n", pc.ID, o.Name)
